@@ -143,11 +143,22 @@ def pair_step(draw):
         nb = draw(st.sampled_from(["mb", "emp", "par/child", "par", "@SEL", "gone"]))
         ns = [f"DELETE {nb}", f"RENAME {nb} {nb}2", f"RENAME {nb} other9", f"CREATE {nb}/kid9", f"CREATE {nb}", f"DELETE {nb}/kid9", f"RENAME inbox {nb}", f"RENAME other9 {nb}"]
         return {"op": "pair", "line": draw(st.sampled_from(ns)), "line2": draw(st.sampled_from(ns)), "gap": draw(st.sampled_from([0, 0, 0, 1, 2])), "slow": draw(st.booleans())}
+    m9 = "From: a@example.com\r\nSubject: pair\r\n\r\nx\r\n"
+    if draw(st.integers(0, 3)) == 1:
+        # every kind of command arriving while a long-running command of a slow client is still executing on the
+        # same mailbox (seeded/C06-4: an EXAMINE in that position killed the mailbox's management task); session b
+        # may first select that mailbox itself
+        first = draw(st.sampled_from(["FETCH 1:* (FLAGS BODY.PEEK[])", "UID FETCH 1:* (BODY.PEEK[HEADER])", "SEARCH TEXT zzz9", "COPY 1:* emp", "UID SEARCH BODY pair",
+                                      "FETCH 1:* (BODY[])", "STORE 1:* +FLAGS (kw9)", "UID COPY 1:* @SEL"]))
+        second = draw(st.sampled_from(["EXAMINE @SEL", "EXAMINE @SEL", "SELECT @SEL", "STATUS @SEL (MESSAGES UIDNEXT)", "NOOP", "CHECK", "CLOSE", "UNSELECT", "EXPUNGE", "STORE 1 +FLAGS (kw8)",
+                                       "FETCH 1 (FLAGS)", "FETCH 1:* (BODY[])", "SEARCH ALL", "UID SEARCH 1:*", f"APPEND @SEL {{{len(m9)}}}\r\n{m9}", "COPY 1 @SEL", "UID COPY 1 emp", "UID MOVE 1 emp",
+                                       "UID EXPUNGE 1", "UID STORE 1 -FLAGS (kw8)", "UID FETCH 1 (BODY[])", "DELETE @SEL", "RENAME @SEL other9", "SUBSCRIBE @SEL", "LIST \"\" *", "LOGOUT"]))
+        pre2 = draw(st.sampled_from([None, "SELECT @SEL", "SELECT @SEL", "EXAMINE @SEL"]))
+        return {"op": "pair", "line": first, "line2": second, "gap": draw(st.sampled_from([0, 1, 1, 2, 3, 5])), "slow": True, "pre2": pre2}
     # (the long-running first commands and the slow client were added after seeded/C06-4: an EXAMINE that
     #  arrives while another session's command is still executing on the mailbox)
     pair_first = draw(st.sampled_from([f"DELETE {box}", f"DELETE {box}", f"RENAME {box} {box}2", "EXPUNGE", "CLOSE", f"SELECT {box}",
                                        "FETCH 1:* (FLAGS BODY.PEEK[])", "UID FETCH 1:* (BODY.PEEK[HEADER])", "SEARCH TEXT zzz9", "COPY 1:* emp", "FETCH 1:* (FLAGS BODY.PEEK[])"]))
-    m9 = "From: a@example.com\r\nSubject: pair\r\n\r\nx\r\n"
     same_box = [f"SELECT {box}", f"EXAMINE {box}", f"STATUS {box} (MESSAGES UNSEEN)", f"APPEND {box} {{{len(m9)}}}\r\n{m9}", f"DELETE {box}",
                 f"RENAME {box} other9", f"SUBSCRIBE {box}", f"COPY 1 {box}", f"UID MOVE 1 {box}", f"CREATE {box}/kid9"]
     second = draw(st.one_of(st.sampled_from(same_box), st.sampled_from(same_box), command_line()))
@@ -262,7 +273,7 @@ def execute(trace) -> CaseResult:
             selected[sess.name] = line.split(" ", 1)[1].strip().strip('"') if r.ok else None
         elif up.startswith(("CLOSE", "UNSELECT", "LOGOUT")):
             selected[sess.name] = None
-        transcript.append({"s": sess.name, "c": line[:80], "r": r.status, "t": round(r.vdur, 2), "closed": r.closed})
+        transcript.append({"s": sess.name, "c": line[:80], "r": r.status, "t": round(r.vdur, 2), "closed": r.closed, **({"raw": r.raw[-200:].decode("latin-1")} if os.environ.get("C06_RAW") else {})})
         sig = cmd_sig(line)
         if r.hang or r.watchdog:
             v("C06.watchdog", f"'{line[:60]}' answered only by the watchdog / not at all (vdur={r.vdur:.0f}s)", sig)
@@ -320,6 +331,11 @@ def execute(trace) -> CaseResult:
                     continue
                 cur = selected.get("a") or "inbox"
                 st_ = dict(st_, line=st_["line"].replace("@SEL", cur), line2=st_["line2"].replace("@SEL", cur))
+                if st_.get("pre2"):
+                    await check_cmd(sb, st_["pre2"].replace("@SEL", cur))
+                    if not sb.alive:
+                        sessions.pop("b", None)
+                        continue
 
                 if st_.get("slow"):
                     import random as _rnd
